@@ -1,6 +1,6 @@
 (* C06 property theorems: statements only; every proof is [exact lemma]. *)
 From Gv Require Import lib.Bytes lib.Json lib.Gql C06.Num C06.Model C06.Spec
-     C06.ProofsBase C06.ProofsValidator C06.ProofsCoerce C06.ProofsPipeline C06.ProofsOffender C06.ProofsEcho C06.Proofs.
+     C06.ProofsBase C06.ProofsValidator C06.ProofsCoerce C06.ProofsPipeline C06.ProofsInject C06.ProofsOffender C06.ProofsEcho C06.Proofs.
 From Coq Require Import List NArith Bool.
 Import ListNotations.
 Open Scope N_scope.
@@ -67,6 +67,22 @@ Print Assumptions c06_accept_iff_coercible_refuted_remap_name_collision_upload.
         explicit condition ---- *)
 Theorem c06_accept_iff_coercible_partial : forall S reparse vds ms,
     fields_nodup S = true ->
+    oneof_no_defaults S = true ->
+    field_defaults_ok weak_strict S = true ->
+    json_nodup (JObj ms) = true ->
+    vars_nodup vds = true ->
+    no_upload_ref S vds = true ->
+    defaults_nullable_only S = true ->
+    forallb (var_default_ok go_quirks S weak_strict) vds = true ->
+    forallb (var_shaped S ms) vds = true ->
+    normalise go_quirks S reparse vds ms <> NFuel ->
+    (accepts go_quirks S reparse vds (JObj ms) = true <-> coercible_all weak S vds (JObj ms) = true).
+Proof. exact accept_iff_coercible_partial_proof. Qed.
+Print Assumptions c06_accept_iff_coercible_partial.
+
+(* the variant with "default injection changes nothing" instead of the shape condition *)
+Theorem c06_accept_iff_coercible_partial_inert : forall S reparse vds ms,
+    fields_nodup S = true ->
     json_nodup (JObj ms) = true ->
     vars_nodup vds = true ->
     no_upload_ref S vds = true ->
@@ -74,8 +90,16 @@ Theorem c06_accept_iff_coercible_partial : forall S reparse vds ms,
     forallb (var_default_ok go_quirks S weak_strict) vds = true ->
     inject_inert go_quirks S reparse vds ms ->
     (accepts go_quirks S reparse vds (JObj ms) = true <-> coercible_all weak S vds (JObj ms) = true).
-Proof. exact accept_iff_coercible_partial_proof. Qed.
-Print Assumptions c06_accept_iff_coercible_partial.
+Proof. exact accept_iff_coercible_partial_inert_proof. Qed.
+Print Assumptions c06_accept_iff_coercible_partial_inert.
+
+(* default injection alone, on every well-shaped value: same coercibility, keys still unique, null stays null *)
+Theorem c06_default_injection_neutral : forall d S reparse,
+    fields_nodup S = true -> field_defaults_ok d S = true -> oneof_no_defaults S = true ->
+    forall fuel t v, entry S v t = true -> json_nodup v = true ->
+                     good_res d S v t (inject go_quirks S reparse fuel t v).
+Proof. exact inject_ok. Qed.
+Print Assumptions c06_default_injection_neutral.
 
 (* ---- the same pipeline with every cause repaired: the full specification ---- *)
 Theorem c06_accept_iff_coercible_repaired : forall S reparse vds ms,
